@@ -225,22 +225,32 @@ def compare_and_monitor(opsf, robs, mobs, pid, spec, M, known, probes=None, run_
         res['opkinds'][kk] = res['opkinds'].get(kk, 0) + 1
         # ---- comparison
         if not tainted:
-            dif = None
+            # all differing lines of this block, in order: the outcome line first, then trace and dump lines
+            # (compared position by position; a missing line differs from everything). The disagreement counts
+            # against the property if ANY of them is one of its observation keys / operation kinds - not only the
+            # first one: an operation kind the property does not list may still change state the property observes
+            difs = []
             if rh != mh:
-                dif = (' '.join(rh), ' '.join(mh))
-            else:
-                rl = rt + rd
-                ml = mt + md
-                if rl != ml:
-                    for a, b in zip(rl, ml):
-                        if a != b:
-                            dif = (a, b)
+                difs.append((' '.join(rh), ' '.join(mh)))
+            rl = rt + rd
+            ml = mt + md
+            if rl != ml:
+                for a, b in zip(rl, ml):
+                    if a != b:
+                        difs.append((a, b))
+                        if len(difs) > 200:
                             break
-                    if dif is None:
-                        if len(rl) > len(ml):
-                            dif = (rl[len(ml)], '<no line>')
-                        else:
-                            dif = ('<no line>', ml[len(rl)])
+                if len(rl) > len(ml):
+                    difs.append((rl[len(ml)], '<no line>'))
+                elif len(ml) > len(rl):
+                    difs.append(('<no line>', ml[len(rl)]))
+            dif = None
+            if difs:
+                dif = difs[0]
+                for d_ in difs:
+                    if relevant(spec, op, d_[0] if d_[0] != '<no line>' else d_[1]):
+                        dif = d_
+                        break
             if dif is not None:
                 tainted = True
                 res['first_diffs'] += 1
